@@ -44,6 +44,7 @@ type LeafGroupingContext struct {
 	tagsMap                      map[string]string   // tag value ids => tag values
 	tagValuesMap                 []map[uint32]string // tag value id=> tag value for each group by tag key
 	tagValues                    []string
+	collectErr                   error // failure of collect grouping tag values
 
 	mutex sync.Mutex
 }
@@ -122,12 +123,31 @@ func (ctx *LeafGroupingContext) collectGroupByTagValues() {
 					stage.ErrMsg = err.Error()
 					stage.State = tracker.ErrorState.String()
 				})
-				ctx.leafExecuteCtx.SendResponse(err)
+				// data load stages of this grouping task are queued/running, they read what SendResponse
+				// releases: report the failure with the completion of the pipeline(after every stage finished).
+				ctx.failCollect(err)
 				return
 			}
 			ctx.reduceTagValues(tagIndex, tagValues)
 		}
 	})
+}
+
+// failCollect marks collect grouping tag values as completed with failure.
+func (ctx *LeafGroupingContext) failCollect(err error) {
+	ctx.mutex.Lock()
+	defer ctx.mutex.Unlock()
+	if ctx.collectErr == nil {
+		ctx.collectErr = err
+		close(ctx.collectGroupingTagsCompleted)
+	}
+}
+
+// collectError returns the failure of collect grouping tag values.
+func (ctx *LeafGroupingContext) collectError() error {
+	ctx.mutex.Lock()
+	defer ctx.mutex.Unlock()
+	return ctx.collectErr
 }
 
 // reduceTagValues reduces the group by tag values
